@@ -220,7 +220,7 @@ type ReloadScript struct {
 func startSafe(k *compKind, p []string) bool {
 	for _, e := range p {
 		switch e {
-		case "auth", "storage", "batcher", "num_consumers", "cipher_suites", "curve_preferences",
+		case "auth", "authority", "storage", "batcher", "num_consumers", "cipher_suites", "curve_preferences",
 			"include_system_ca_certs_pool", "proxy_url", "output_paths", "error_output_paths", "address", "readers", "views", "processors", "middlewares", "middleware":
 			return false
 		}
